@@ -322,8 +322,9 @@ fn process_tcp_packet(
     // A SYN with another initial sequence number opens a new connection on this 4-tuple (port
     // reuse): what is still kept for the earlier one does not apply to it
     let flags = tcp.get_flags();
-    if flags & pnet::packet::tcp::TcpFlags::SYN != 0
-        && flags & pnet::packet::tcp::TcpFlags::ACK == 0
+    let opens_connection = flags & pnet::packet::tcp::TcpFlags::SYN != 0
+        && flags & pnet::packet::tcp::TcpFlags::ACK == 0;
+    if opens_connection
         && http_flows
             .get(&flow_key)
             .is_some_and(|flow| flow.client_isn != tcp.get_sequence())
@@ -428,7 +429,10 @@ fn process_tcp_packet(
                 http_flows.remove(stored_key);
             }
         }
-    } else if tcp.get_flags() & pnet::packet::tcp::TcpFlags::SYN != 0 {
+    } else if opens_connection {
+        // Only the client's SYN opens a flow. A SYN+ACK whose SYN was not seen (or has expired)
+        // would open one with the roles swapped: it never yields a message, and it captures the
+        // packets of a later connection on the same ports as "server" data
         let tcp_data: TcpData =
             TcpData { sequence: tcp.get_sequence(), data: Vec::from(tcp.payload()) };
         let flow: TcpFlow = TcpFlow::init(src_ip, src_port, dst_ip, dst_port, tcp_data);
